@@ -1415,9 +1415,12 @@ static void send_say (object_t * ob, char *text, array_t * avoid) {
   tell_object (ob, text);
 }
 
+#define CAN_HEAR(ob) ((ob)->flags & O_LISTENER || (ob)->interactive)
+
 void say (svalue_t * v, array_t * avoid) {
-  object_t *ob, *origin, *save_command_giver = command_giver;
+  object_t *ob, *origin, **who, *save_command_giver = command_giver;
   char *buff;
+  int n = 0, i;
 
   check_legal_string (v->u.string);
   buff = v->u.string;
@@ -1429,32 +1432,46 @@ void say (svalue_t * v, array_t * avoid) {
   else
     origin = current_object;
 
-  /* To our surrounding object... */
+  /* Collect the audience first, as in shout_string(): catch_tell() is LPC code that can
+   * destruct or move the speaker (it has no environment any more then), the listener
+   * (whose next_inv then leads through another inventory) or the room. The objects
+   * stay allocated until the backend frees the destructed ones. */
   if ((ob = origin->super))
     {
-      if (ob->flags & O_LISTENER || ob->interactive)
-        send_say (ob, buff, avoid);
-
-      /* And its inventory... */
-      for (ob = origin->super->contains; ob; ob = ob->next_inv)
-        {
-          if (ob != origin && (ob->flags & O_LISTENER || ob->interactive))
-            {
-              send_say (ob, buff, avoid);
-              if (ob->flags & O_DESTRUCTED)
-                break;
-            }
-        }
+      n++;
+      for (ob = ob->contains; ob; ob = ob->next_inv)
+        n++;
     }
-  /* Our inventory... */
   for (ob = origin->contains; ob; ob = ob->next_inv)
+    n++;
+
+  if (n)
     {
-      if (ob->flags & O_LISTENER || ob->interactive)
+      who = (object_t **) new_string (n * sizeof (object_t *), "say");
+      push_malloced_string ((char *) who);	/* freed with the stack if catch_tell() raises an error */
+      i = 0;
+      /* To our surrounding object... */
+      if ((ob = origin->super))
         {
-          send_say (ob, buff, avoid);
-          if (ob->flags & O_DESTRUCTED)
-            break;
+          if (CAN_HEAR (ob))
+            who[i++] = ob;
+          /* And its inventory... */
+          for (ob = ob->contains; ob; ob = ob->next_inv)
+            if (ob != origin && CAN_HEAR (ob))
+              who[i++] = ob;
         }
+      /* Our inventory... */
+      for (ob = origin->contains; ob; ob = ob->next_inv)
+        if (CAN_HEAR (ob))
+          who[i++] = ob;
+      n = i;
+      for (i = 0; i < n; i++)
+        {
+          if (who[i]->flags & O_DESTRUCTED)
+            continue;
+          send_say (who[i], buff, avoid);
+        }
+      pop_stack ();
     }
 
   command_giver = save_command_giver;
@@ -1466,9 +1483,9 @@ void say (svalue_t * v, array_t * avoid) {
  */
 #ifdef F_TELL_ROOM
 void tell_room (object_t * room, svalue_t * v, array_t * avoid) {
-  object_t *ob;
+  object_t *ob, **who;
   char *buff;
-  int valid, j;
+  int valid, j, n = 0, i;
   char txt_buf[LARGEST_PRINTABLE_STRING];
 
   switch (v->type)
@@ -1495,9 +1512,22 @@ void tell_room (object_t * room, svalue_t * v, array_t * avoid) {
       return;
     }
 
+  /* collect the audience first, see say() */
   for (ob = room->contains; ob; ob = ob->next_inv)
+    n++;
+  if (!n)
+    return;
+  who = (object_t **) new_string (n * sizeof (object_t *), "tell_room");
+  push_malloced_string ((char *) who);	/* freed with the stack if catch_tell() raises an error */
+  for (i = 0, ob = room->contains; ob; ob = ob->next_inv)
+    if (CAN_HEAR (ob))
+      who[i++] = ob;
+  n = i;
+
+  for (i = 0; i < n; i++)
     {
-      if (!ob->interactive && !(ob->flags & O_LISTENER))
+      ob = who[i];
+      if (ob->flags & O_DESTRUCTED)
         continue;
 
       for (valid = 1, j = 0; j < avoid->size; j++)
@@ -1515,18 +1545,11 @@ void tell_room (object_t * room, svalue_t * v, array_t * avoid) {
         continue;
 
       if (!ob->interactive)
-        {
-          tell_npc (ob, buff);
-          if (ob->flags & O_DESTRUCTED)
-            break;
-        }
+        tell_npc (ob, buff);
       else
-        {
-          tell_object (ob, buff);
-          if (ob->flags & O_DESTRUCTED)
-            break;
-        }
+        tell_object (ob, buff);
     }
+  pop_stack ();
 }
 #endif
 
